@@ -61,6 +61,8 @@ class model(base.model):
                     nflux[i][c] = pL[i][c]**2/2
                 elif vhalf < 0:
                     nflux[i][c] = pR[i][c]**2/2
+                elif pL[i][c] > 0: # stationary shock uL=-uR>0
+                    nflux[i][c] = pL[i][c]**2/2
         return nflux
 
     def timestep(self, data, dx, condition):
